@@ -19,28 +19,26 @@ VARIABLE tid
 RECURSIVE Runs1(_, _, _, _)
 Runs1(c, want, r, acc) ==
   IF r > Len(c.runs) THEN acc
-  ELSE LET f == Accept1(want, c.runs[r]) IN
-       Runs1(c, want, r + 1, IF f = <<>> THEN acc ELSE Append(acc, <<f[1], r, f[2]>>))
+  ELSE Pick({Runs1(c, want, r + 1, IF f = <<>> THEN acc ELSE Append(acc, <<f[1], r, f[2]>>)) : f \in {Accept1(want, c.runs[r])}})
 Judge1(c) ==
   IF ~(c.top.k = "L" /\ WF(c.top, 3)) THEN <<<<"machinery:ill-formed", 0, 0>>>>
   ELSE IF c.flat # Text(c.top) THEN <<<<"machinery:flat-differs", FirstDiff(c.flat, Text(c.top)), 0>>>>
   ELSE IF ~Aligned(c.top) THEN <<<<"machinery:not-aligned", 0, 0>>>>
-  ELSE Runs1(c, Flatten(Statements(<<Text(c.top)>>), 1, <<>>), 1, <<>>)
+  ELSE Pick({Runs1(c, want, 1, <<>>) : want \in {Flatten(Statements(<<Text(c.top)>>), 1, <<>>)}})
 
-Judge2(c) ==
-  LET rw == Read(c.wide)
-      ro == ReadChecked(c.out, c.width, 4)
-      d == FirstDiff(rw.stmts, ro.stmts)
-      both == d # 0 /\ d <= Len(rw.stmts) /\ d <= Len(ro.stmts)
+Judge2b(c, rw, ro, d) ==
+  LET both == d # 0 /\ d <= Len(rw.stmts) /\ d <= Len(ro.stmts)
       j == IF both THEN FirstDiff(rw.stmts[d], ro.stmts[d]) ELSE 0
       kind == IF both /\ j <= Len(rw.stmts[d]) THEN TokKind(rw.stmts[d][j]) ELSE "count"
-      bad == ro.bad
       lone == LoneAmp(c.out, 1)
   IN (IF c.gf THEN <<>> ELSE <<<<"gfortran-rejects", 0, 0>>>>) \o
      (IF lone = 0 THEN <<>> ELSE <<<<"lone-ampersand", lone, 0>>>>) \o
      (IF d = 0 THEN <<>>
       ELSE <<<<"tokens:" \o kind, IF d <= Len(ro.ends) THEN ro.ends[d] ELSE Len(c.out), IF d <= Len(rw.ends) THEN rw.ends[d] ELSE Len(c.wide)>>>>)
-     \o [i \in DOMAIN bad |-> <<"line-" \o bad[i][2], bad[i][1], 0>>]
+     \o [i \in DOMAIN ro.bad |-> <<"line-" \o ro.bad[i][2], ro.bad[i][1], 0>>]
+Judge2(c) == Pick({ Pick({ Pick({ Judge2b(c, rw, ro, d) : d \in {FirstDiff(rw.stmts, ro.stmts)} }) :
+                             ro \in {ReadChecked(c.out, c.width, 4)} }) :
+                      rw \in {Read(c.wide)} })
 
 Init_ == tid = 1
 Next_ == /\ tid <= Len(Cases)
